@@ -144,6 +144,35 @@ def run_big(ctx):
     m.close()
 
 
+def run_record_arrays(ctx, quick):
+    """N-d arrays (dynamic, ranked, fixed) and vectors of records with fixed-width fields: with and without gaps in the natural in-memory layout
+    ({uint8, float64} has 7 bytes of padding in C++ and in an aligned numpy dtype; on the wire it takes 9 bytes), nested records, generic records"""
+    recs = [Rec("RaTight", [("x", P("float32")), ("y", P("float32"))]), Rec("RaPadA", [("a", P("uint8")), ("b", P("float64"))]),
+            Rec("RaPadB", [("f", P("float32")), ("d", P("float64")), ("t", P("bool"))]), Rec("RaPadC", [("c", P("complexfloat64")), ("i", P("int8")), ("f", P("float32"))]),
+            Rec("RaOuter", [("p", N("RaPadA")), ("q", P("uint8"))]), Rec("RaGen", [("k", TP("K")), ("v", TP("V"))], ("K", "V"))]
+    items = [N("RaTight"), N("RaPadA"), N("RaPadB"), N("RaPadC"), N("RaOuter"), N("RaGen", (P("uint8"), P("float64"))), N("RaGen", (P("float32"), P("float32")))]
+    protos = []
+    for i, it in enumerate(items):
+        protos.append(Proto("Ra%d" % i, [("dyn", A(it, None)), ("ranked", A(it, 2)), ("fixed", A(it, ((None, 2), (None, 3)))), ("vec", V(it)), ("fvec", V(it, 2)),
+                                         ("s", S(A(it, 1))), ("opt", Opt(A(it, None))), ("end", P("int32"))]))
+    pkg = Pkg("RecArr", recs + protos)
+    m = rt.prepare_model(ctx, "recarr", pkg, ["plain"])
+    if m is None:
+        raise Inconclusive("record-array model did not build")
+    c = m.codec
+    cpp, py = rt.CppEndpoint(m, "plain"), rt.PyEndpoint(m)
+
+    def one(proto):
+        for k in range(2 if quick else 6):
+            vals = values.ValueGen(c, rng("C03ra", proto.name, k), quiet_nan_only=True).steps(proto)
+            ctx.case(("record-arrays", proto.name, k))
+            for hops in ([(py, "bin"), (cpp, "bin")], [(cpp, "bin"), (py, "bin")], [(py, "bin"), (py, "bin")]):
+                chain(ctx, m, proto, vals, "bin", hops, "arrays of fixed-width records %s set %d" % (proto.name, k), {"record_arrays": True, "set": k})
+                ctx.count("record-arrays.chains")
+    pmap(one, pkg.protocols(), workers=6)
+    m.close()
+
+
 def run_multiarray(ctx):
     """records with several arrays whose items straddle the reader's 64 KiB refills: an array decoded before a refill must keep its values
     (it must not be a view of the reader's buffer)"""
@@ -279,6 +308,7 @@ def run(ctx):
     pmap(lambda key: run_py_modes(ctx, key + "m", corpus.ser_package(key, depth=3), 4), keys[: (3 if quick else 30)], workers=8)
     run_nulltag(ctx)
     run_multiarray(ctx)
+    run_record_arrays(ctx, quick)
     run_union_matrix(ctx, quick)
     run_sweep(ctx, range(-12, 3) if not quick else range(-11, 2))
     run_big(ctx)
